@@ -435,8 +435,65 @@ def body(chk, db, cfgname):
     else:
         r6.bad(ssite, g.loc(), "copy constructor does not copy %s" % ("Sites" if not sites_copied else "the term storage (deep)"), cfgname)
 
+    r7 = chk.rule("C20-R7", "after addSite the look-up by label returns the site added last under that label; other labels are untouched; getSite fails for unknown labels", "F7 table maps, interpreted over add/look-up histories", 2)
+    check_site_table(r7, db, cfgname)
+
     chk.undecided.append("that the stored terms, once translated, give the intended matrix (C04); exception safety of allocation failures")
     chk.trusted.append("R2 assumes LatticePresets functions that call Lattice::addTerm pre-validate what it validates (its throws are not re-discharged at those calls)")
+
+
+def check_site_table(r7, db, cfgname):
+    """The site table is only keyed by labels (compared, never computed with), so the extracted bodies of addSite / getSite
+    are evaluated on histories over two labels: add A, add B, add A again with other sizes; look up A, B and an unknown label."""
+    from pv.summ import Interp, Obj, Thrown
+    L = "Pomerol::Lattice"
+    ST = L + "::Site::"
+    add_p = [g for g in db.fns_named(L + "::addSite") if len(g.params) == 1]
+    add_3 = [g for g in db.fns_named(L + "::addSite") if len(g.params) == 3]
+    get = db.fn(L + "::getSite", nparams=1)
+    if len(add_p) != 1 or len(add_3) != 1:
+        raise AnalysisBroken("Lattice::addSite overloads not found")
+
+    def new_site(fr, i, args):
+        ini = fr.nodes[i].get("init")
+        ctor = fr.ip.db.callee_fn(fr.nodes[ini]) if ini is not None and fr.nodes[ini]["k"] == "construct" else None
+        if ctor is None or ctor.body is None or ctor.body < 0:
+            fr.bad(i, "Site constructor not analysable")
+        return fr.ip.run_ctor(ctor, args, Obj("Site", **{ST + "Label": None, ST + "OrbitalSize": None, ST + "SpinSize": None}))
+    for which, site in (("pointer", L + "::addSite(Site*)"), ("sizes", L + "::addSite(label,orbitals,spins)")):
+        with r7.guard(site, (add_p[0] if which == "pointer" else add_3[0]).loc(), cfgname):
+            lat = Obj("Lattice", **{L + "::Sites": {}, L + "::Terms": Obj("TermStorage")})
+            ip = Interp(db, {"new Pomerol::Lattice::Site": new_site})
+            hist = [("A", 1, 2), ("B", 2, 2), ("A", 3, 1)]
+            want = {}
+            for lab, o_, s_ in hist:
+                try:
+                    if which == "pointer":
+                        ip.call_fn(add_p[0], [Obj("Site", **{ST + "Label": lab, ST + "OrbitalSize": o_, ST + "SpinSize": s_})], this=lat)
+                    else:
+                        ip.call_fn(add_3[0], [lab, o_, s_], this=lat)
+                except Thrown as t:
+                    raise AnalysisBroken("addSite throws %s" % t.tt)
+                want[lab] = (lab, o_, s_)
+            probs = []
+            for lab in ("A", "B"):
+                try:
+                    got = ip.call_fn(get, [lab], this=lat)
+                    tup = (got.f.get(ST + "Label"), got.f.get(ST + "OrbitalSize"), got.f.get(ST + "SpinSize")) if isinstance(got, Obj) else got
+                except Thrown as t:
+                    tup = "exception " + t.tt
+                if tup != want[lab]:
+                    probs.append("after addSite%s in this order, getSite(\"%s\") gives %s, the site added last under this label is %s" % (tuple(hist), lab, tup, want[lab]))
+            try:
+                got = ip.call_fn(get, ["C"], this=lat)
+                probs.append("getSite of a label that was never added returns %r instead of failing" % (got,))
+            except Thrown:
+                pass
+            if probs:
+                r7.bad(site, (add_p[0] if which == "pointer" else add_3[0]).loc(), "; ".join(probs), cfgname)
+            else:
+                r7.ok(site, (add_p[0] if which == "pointer" else add_3[0]).loc(), "history add A, add B, add A again: look-ups return the last site added under each label, an unknown label fails", cfgname)
+
 
 
 def fact_str(f):
